@@ -174,3 +174,13 @@ check("C18",
       "bed12(Feature), convert.to_bed12, len() and Feature.sequence() via a generated FASTA file and pyfaidx, against the model's values (Gen_Intervals).",
       TB + "pyfaidx is exercised, not modelled.",
       "TLA+ spec (Intervals) + TLC alg-vs-decl for BED12 and sequence laws + model-computed expectations for random gene models replayed on the code")
+
+check("C20",
+      "Concurrent.tla models N importer processes sharing one temporary directory (name -> owner, data) with one action per shared-directory step (Mk atomic fresh name, Wr, Rd, "
+      "Rm; Populate/Ins private); TLC explores ALL interleavings of 2 and 3 processes for Isolation, OwnFileOnly, DistinctNames, Cleanup, SolitaryResult, shows that fixed / "
+      "per-kind names break them, and prints every order of the shared steps (70 schedules for two processes, sampled for three). Real OS processes (GFF3 and GTF inputs) are "
+      "driven through each schedule by a scheduler built on sys.addaudithook (tempfile.mkstemp / open / os.remove at the OS-API boundary, one process released at a time); every "
+      "event with the directory listing and the content read back is validated by Trace_Concurrent (enabledness, listing = model directory, invariants after every step) and "
+      "every output database is compared with a solitary run. Free-running bursts up to 24/48 processes and concurrent readers of one finished file are judged per process.",
+      TB + "CPython audit events are the observation points; schedules beyond three processes are sampled by free-running bursts.",
+      "TLA+ spec (Concurrent) + TLC over all interleavings + TLC-generated schedules imposed on real processes + trace validation (Trace_Concurrent)")
